@@ -158,6 +158,46 @@ def laplacian (den : Nat) (tf tb : Table) (shape : Nat → Nat) (ndim : Nat) (c 
 
 end
 
+/-! ### N-d arrays of ANY ndim (round 4)
+
+`finite_diff` does `np.swapaxes(·, 0, axis)` and slices the first axis: nothing in the code
+depends on `ndim`.  Here an array of any dimension is a function of a multi-index
+`IdxN = Nat → Nat` (entry `a` = position on axis `a`; axes `≥ ndim` are never touched), so the
+same four operators are stated — and executed by the driver's `ndn` op — for arbitrary `ndim`. -/
+
+abbrev IdxN := Nat → Nat
+
+/-- the multi-index with position `k` on axis `a` -/
+def IdxN.set (x : IdxN) (a k : Nat) : IdxN := fun i => if i = a then k else x i
+
+section
+variable {K : Type} [Add K] [Sub K] [Mul K] [Div K] [OfNat K 0] [IntCast K] [NatCast K]
+
+/-- `finite_diff(f, axis=a, dx=dx, …)` on an array of any ndim: acts on the line through `x`
+along axis `a`. -/
+def fdAxisN (den : Nat) (t : Table) (shape : Nat → Nat) (a : Nat) (c dx : K)
+    (f : IdxN → K) : IdxN → K :=
+  fun x => fd den t (shape a) c dx (fun k => f (x.set a k)) (x a)
+
+/-- `Gradient._call`, any ndim. -/
+def gradientN (den : Nat) (t : Table) (shape : Nat → Nat) (c : K) (dx : Nat → K)
+    (f : IdxN → K) : Nat → IdxN → K :=
+  fun a => fdAxisN den t shape a c (dx a) f
+
+/-- `Divergence._call`, any ndim: `out = tmp₀; out += tmp_a` over the axes in order. -/
+def divergenceN (den : Nat) (t : Table) (shape : Nat → Nat) (ndim : Nat) (c : K) (dx : Nat → K)
+    (h : Nat → IdxN → K) : IdxN → K :=
+  fun x => (List.range ndim).foldl (fun s a => s + fdAxisN den t shape a c (dx a) (h a) x) 0
+
+/-- `Laplacian._call`, any ndim: `out = 0; for axis: out += fwd(dx²); out -= bwd(dx²)`. -/
+def laplacianN (den : Nat) (tf tb : Table) (shape : Nat → Nat) (ndim : Nat) (c : K)
+    (dx : Nat → K) (f : IdxN → K) : IdxN → K :=
+  fun x => (List.range ndim).foldl
+    (fun s a => s + fdAxisN den tf shape a c (dx a * dx a) f x
+                  - fdAxisN den tb shape a c (dx a * dx a) f x) 0
+
+end
+
 /-! ### `.adjoint` and `.derivative` of the four classes (which instance is returned) -/
 
 inductive Kind | pd | grad | div | lap
